@@ -9,12 +9,17 @@
    as_matrix() applied, fitted shape as documented):
    {op:"fit", F:[models], M:[models], fd, md, mask:[]|[[bool..]], oc:"ok"|"Rejected",
     rmsd2q:[per transformation], sane:bool}
-   {op:"outliers", F:[points], M:[points], min_anchors, anchors:[0-based], rmsd2q, sane}
-   {op:"homologs", F:[CA points fixed], M:[CA points mobile], min_anchors,
-    fa:[1-based positions in F], ma:[1-based positions in M], rmsd2q, sane}
+   {op:"outliers", F:[points], M:[points], min_anchors, maxit, anchors:[0-based], rmsd2q, sane}
+   {op:"homologs", F:[CA points fixed], M:[CA points mobile], sF:[residue names], sM:[..],
+    min_anchors, maxit, oc:"ok"|"Rejected", fa:[1-based positions in F], ma:[1-based positions in M],
+    rmsd2q, sane}
+   The events come from the seeded recorder (S3) and from the executions of the spec-generated
+   "anch" cases of RigidFit.tla (S2).
    Judged: broadcasting outcome and number of transformations; RMSD^2 <= the lattice witness
-   bound W (+ 3/10000); anchors well-formed, at least min(min_anchors, n) of them, and the
-   reported fit no worse than W on exactly those anchors.  NOT judged: optimality below W. *)
+   bound W (+ 3/10000); anchors well-formed, at least min(min_anchors, n) of them, all of them
+   when max_iterations = 1, the anchor path of the homolog variant (fallback / identity pairing
+   by position, refusal of the fallback for unequal counts), and the reported fit no worse than
+   W on exactly those anchors.  NOT judged: optimality below W. *)
 EXTENDS RigidFitOps, SequencesExt, Json, IOUtils
 
 Tr == JsonDeserialize(IOEnv.TRACE_FILE)
@@ -44,18 +49,28 @@ JudgeOutliers(t, k, e) ==
       a1 == [i \in DOMAIN e.anchors |-> e.anchors[i] + 1]
       wf == /\ StrictlyIncreasing(e.anchors) /\ \A i \in DOMAIN e.anchors : e.anchors[i] >= 0 /\ e.anchors[i] < n
             /\ Len(e.anchors) >= MinI(e.min_anchors, n)
+            /\ (e.maxit = 1 => Len(e.anchors) = n)        \* documented: no outlier removal is conducted
       W == WitnessBoundOn(e.F, e.M, ToSet(a1))
   IN IF wf /\ e.sane /\ Below(e.rmsd2q, W) THEN TRUE
      ELSE PrintT(<<"MISMATCH", t, k, "outliers", <<wf, e.sane>>, "", IF wf THEN {<<1, W>>} ELSE {}>>)
 
+(* homologs: the anchor path (RigidFitOps!HomologPath) from the residue names; oc = "Rejected" is
+   the documented ValueError refusal.  Paired by position (fallback, identical sequences): the
+   two anchor lists are equal; without outlier removal they are all residues. *)
 JudgeHomologs(t, k, e) ==
-  LET wf == /\ Len(e.fa) = Len(e.ma) /\ Len(e.fa) >= MinI(e.min_anchors, MinI(Len(e.F), Len(e.M)))
+  LET path == HomologPath(e.sF, e.sM, e.min_anchors)
+      okOc == /\ path = "Rejected" => e.oc = "Rejected"
+              /\ PairedByPosition(path) => e.oc = "ok"
+      wf == /\ Len(e.fa) = Len(e.ma) /\ Len(e.fa) >= MinI(e.min_anchors, MinI(Len(e.F), Len(e.M)))
             /\ StrictlyIncreasing(e.fa) /\ StrictlyIncreasing(e.ma)
             /\ \A i \in DOMAIN e.fa : e.fa[i] >= 1 /\ e.fa[i] <= Len(e.F)
             /\ \A i \in DOMAIN e.ma : e.ma[i] >= 1 /\ e.ma[i] <= Len(e.M)
+            /\ PairedByPosition(path) => (e.fa = e.ma /\ (e.maxit = 1 => Len(e.fa) = Len(e.F)))
       W == WitnessBoundPairs(e.F, e.M, e.fa, e.ma)
-  IN IF wf /\ e.sane /\ Below(e.rmsd2q, W) THEN TRUE
-     ELSE PrintT(<<"MISMATCH", t, k, "homologs", <<wf, e.sane>>, "", IF wf THEN {<<1, W>>} ELSE {}>>)
+  IN IF e.oc = "Rejected" THEN
+       (IF okOc THEN TRUE ELSE PrintT(<<"MISMATCH", t, k, "homologs", <<okOc, TRUE, e.sane>>, path, {}>>))
+     ELSE IF okOc /\ wf /\ e.sane /\ Below(e.rmsd2q, W) THEN TRUE
+     ELSE PrintT(<<"MISMATCH", t, k, "homologs", <<okOc, wf, e.sane>>, path, IF wf THEN {<<1, W>>} ELSE {}>>)
 
 Judge(t, k) ==
   LET e == Tr[t][k] IN
